@@ -131,14 +131,25 @@ def encode(chans, rng, version=2, ftype=TYPE_S16LH, blocksize=16, maxnlpc=0, nme
         if bs!=cur_bs:
             bw.uvar(FN_BLOCKSIZE,2); bw.ulong(bs); cur_bs=bs; stat(FN_BLOCKSIZE)
         # choose bitshift usable for this block across channels (PCM only)
-        if ftype in (TYPE_S16HL,TYPE_S16LH):
-            blkvals=[v for ch in chans for v in ch[pos:pos+bs]]
-            tz=min(((v & -v).bit_length()-1 if v else 15) for v in blkvals) if blkvals else 0
-            want=int(min(tz, rng.integers(0,4))) if rng.random()<0.5 else 0
-            if want!=bitshift:
-                bw.uvar(FN_BITSHIFT,2); bw.uvar(want,2); bitshift=want; stat(FN_BITSHIFT)
-        stats['bitshifts'].add(bitshift); stats['blocksizes'].add(bs)
+        stats['blocksizes'].add(bs)
         for c in range(nchan):
+            # the bit shift is decoder state: a conforming encoder may change it before any block, also between
+            # the channel blocks of one frame (each channel can have its own number of trailing zero bits)
+            if ftype in (TYPE_S16HL,TYPE_S16LH):
+                per_channel = nchan>1 and rng.random()<0.5
+                blkvals=list(chans[c][pos:pos+bs]) if per_channel else [v for ch in chans[c:] for v in ch[pos:pos+bs]]
+                if c==0 or per_channel:
+                    tz=min(((v & -v).bit_length()-1 if v else 15) for v in blkvals) if blkvals else 0
+                    want=int(min(tz, rng.integers(0,4))) if rng.random()<0.5 else 0
+                else:
+                    want=bitshift
+                # the shift in force must divide this channel's block
+                mytz=min(((v & -v).bit_length()-1 if v else 15) for v in chans[c][pos:pos+bs]) if bs else 0
+                want=min(want,mytz)
+                if want!=bitshift:
+                    bw.uvar(FN_BITSHIFT,2); bw.uvar(want,2); bitshift=want; stat(FN_BITSHIFT)
+                    if c>0: stats['midframe_bitshift']=stats.get('midframe_bitshift',0)+1
+            stats['bitshifts'].add(bitshift)
             blk=[v>>bitshift for v in chans[c][pos:pos+bs]] if ftype in (TYPE_S16HL,TYPE_S16LH) else list(chans[c][pos:pos+bs])
             if nmean:
                 s=(nmean//2 if version>=2 else 0)+sum(offs[c][:nmean]); coffset=cdiv(s,nmean)
